@@ -246,7 +246,8 @@ def xml_files(ctx, files):
 
 def json_case(ctx, c, n):
     merged = c["merged"] if isinstance(c["merged"], dict) else {}
-    multi = {nm for nm, v in merged.items() if v["max"] > 1}
+    # arrays: what repeats in some sample, and what the hidden model lets repeat (an array of ONE item is still an array)
+    multi = {nm for nm, v in merged.items() if v["max"] > 1} | set(c.get("hiddenMulti") or [])
     docs = [sample_json(d, multi) for d in c["samples"]]
     if any(not d for d in docs):
         return
